@@ -436,7 +436,10 @@ func runPurge(rc *RunCtx, prop, variant string) *simkit.Violation {
 		w.Note("index build reported failure (%v): nothing is claimed for this run", bt.Err)
 		return nil
 	}
-	idx := bt.Result.(*core.PurgeIndex)
+	idx, _ := bt.Result.(*core.PurgeIndex)
+	if idx == nil {
+		return Viol(prop, "purge-command-failed", "PurgeBuildReverseIndex", "", "the index build returned neither an error nor a result")
+	}
 	w.Note("%s: contexts %d, bundles at index time %d, referenced blobs %d, orphaned %d, chunk size %d -> index of %d keys", variant, len(p.ctxs), len(before), len(refAtIndex), len(orphaned), chunk, idx.NumEntries)
 
 	// C14: the index holds exactly the referenced keys, each once
@@ -539,7 +542,10 @@ func runPurge(rc *RunCtx, prop, variant string) *simkit.Violation {
 		w.Note("delete-unused reported failure (%v): nothing is claimed for this run", dt.Err)
 		return nil
 	}
-	res := dt.Result.(*core.PurgeBlobs)
+	res, _ := dt.Result.(*core.PurgeBlobs)
+	if res == nil {
+		return Viol(prop, "purge-command-failed", "PurgeDeleteUnused", "", "delete-unused returned neither an error nor a result")
+	}
 	w.Probe("nontrivial")
 	w.ProbeN("blobs-deleted", int(res.DeletedEntries))
 	if res.DeletedEntries > 0 {
